@@ -17,7 +17,7 @@ namespace RSocketModel.BObj
 /-- frame classes instantiated by `frame_builders.py` -/
 inductive Cls where
   | PayloadFrame | RequestNFrame | CancelFrame | RequestChannelFrame | RequestStreamFrame
-  | RequestResponseFrame | RequestFireAndForgetFrame | SetupFrame | MetadataPushFrame | KeepAliveFrame
+  | RequestResponseFrame | RequestFireAndForgetFrame | SetupFrame | MetadataPushFrame | KeepAliveFrame | ErrorFrame
 deriving DecidableEq, Repr
 
 /-- attributes assigned by `frame_builders.py` or read by the encoder -/
@@ -25,7 +25,7 @@ inductive Fld where
   | stream_id | flags_ignore | flags_follows | flags_complete | flags_next | flags_respond | flags_lease
   | flags_resume | data | metadata | request_n | initial_request_n | fragment_size_bytes | sent_future
   | last_received_position | keep_alive_milliseconds | max_lifetime_milliseconds | data_encoding
-  | metadata_encoding | major_version | minor_version | flags_metadata | metadata_only
+  | metadata_encoding | major_version | minor_version | flags_metadata | metadata_only | error_code
 deriving DecidableEq, Repr
 
 /-- Python values that occur: `None`, `bool`, `int`, `bytes`, a `timedelta` (in microseconds), a
